@@ -130,6 +130,19 @@ def run_property(prop, tier="quick", seed=0, replay=None, out=sys.stdout):
         fatal = "%s" % e
     except Exception:
         fatal = traceback.format_exc()
+    selftest = None
+    if tier == "thorough" and fatal is None and not replay:
+        from . import selftest as st
+
+        def make_ctx(repo):
+            c = Ctx(prop, tier, seed)
+            c.repo = repo
+            c.crates = ctx.crates
+            return c
+        try:
+            selftest = st.run(prop, mod, make_ctx, seed, log=sys.stderr)
+        except Exception:
+            selftest = {"error": traceback.format_exc()[-600:]}
     wall = time.time() - t0
 
     viol = [o for o in ctx.oblig if o["verdict"] == "violation"]
@@ -167,6 +180,12 @@ def run_property(prop, tier="quick", seed=0, replay=None, out=sys.stdout):
                          "pv rule evaluator (python)"],
         "exhaustive": False,
     }
+    if selftest is not None:
+        cov["selftest"] = selftest
+        missed = [r["name"] for r in selftest.get("results", []) if r.get("status") == "MISSED"]
+        for m in missed:
+            print("[%s] SELFTEST-MISS: rule did not fire on mutant %s (checker weakness, not a violation of the tree)"
+                  % (prop, m), file=out)
     ev = {
         "property_id": prop,
         "tier": tier,
